@@ -6,6 +6,7 @@ package interp
 
 type chooseIter struct {
 	r    *Run
+	sym  bool
 	m    map[value]value
 	keys []value
 }
@@ -13,7 +14,7 @@ type chooseIter struct {
 func (it *chooseIter) next() tuple {
 	for len(it.keys) > 0 {
 		idx := 0
-		if it.r.MapOrderSymbolic && len(it.keys) > 1 {
+		if it.sym && len(it.keys) > 1 {
 			idx = it.r.S.choose("maporder", len(it.keys))
 		}
 		k := it.keys[idx]
